@@ -81,6 +81,7 @@ class Contract:
     abstract: bool = False                    # contract of an abstract method (no body to verify)
     varargs: bool = False                     # extra positional/keyword arguments at call sites are ignored (opaque)
     at_call: dict = field(default_factory=dict)       # callee name -> [Clause] asserted in the caller just before each such call
+    ghost_after: dict = field(default_factory=dict)   # callee name -> {ghost path: expr}: ghost update performed right after each such call (`result` bound)
     assume_after: dict = field(default_factory=dict)  # callee name -> [Clause] ASSUMED right after each such call (`result` bound); listed as assumptions
     ghost_at_exit: dict = field(default_factory=dict)  # ghost path -> expression over the EXIT state (may mention cand_locals)
     binds_fields: dict = field(default_factory=dict)   # for __init__ contracts: object-typed field -> parameter it aliases
